@@ -361,6 +361,14 @@ func (g *Gen) PureCall(ty *Ty, d int) *X {
 		return x
 	case KF64:
 		name := []string{"Neg", "Half"}[g.pick(2, "pcf")]
+		if g.pick(8, "pcfco") == 0 {
+			// the result of another (pure) call, typed interface{}: whatever number it holds is passed as it is
+			inner := Call("Coalesce", TInt, LitNil(), LitInt(g.pick(4, "pcfci")))
+			if g.coin("pcfcf") {
+				inner = Call("Coalesce", TF64, LitFloat(1.5))
+			}
+			return Call(name, TF64, inner)
+		}
 		switch g.pick(3, "pcfa") {
 		case 0:
 			return Call(name, TF64, g.floatArg(d-1))
